@@ -43,6 +43,13 @@ Step ==
   /\ l <= Len(Log) /\ l' = l + 1
   /\ LET e == Log[l] IN
      IF e.ev = "Reset" THEN cfg' = e.cfg /\ s' = InitS /\ ok' = TRUE
+     ELSE IF e.ev = "StopRace"
+     THEN \* Stop called while a poll is in progress (a gauge supplier has not returned yet): Stop terminates the poller,
+          \* so it returns only once that poll is over, and no supplier is called after it has returned
+          /\ UNCHANGED <<ok, cfg, s>>
+          /\ (e.returnedwhilepolling \/ e.late > 0 \/ ~e.returnedafter) =>
+                PrintT(<<"REJECT", ToJson([trace |-> e.trace, line |-> l, why |-> "Stop during a poll: it returned before the poller had terminated, or gauges were polled after it returned",
+                                           expected |-> [returnedwhilepolling |-> FALSE, late |-> 0, returnedafter |-> TRUE], logged |-> e, op |-> [op |-> "stop-during-poll"]])>>)
      ELSE IF ~ok THEN UNCHANGED <<ok, cfg, s>>
      ELSE IF e.ev = "End"
      THEN /\ UNCHANGED <<cfg, s>>
